@@ -103,7 +103,7 @@ def main():
     si, sn = [int(x) for x in shard.split("/")]
     scale = {"native": "native", "asan": "asan", "miri": "miri", "valgrind": "valgrind"}[mode]
     CASES = {("native", "quick"): 512, ("native", "thorough"): 4096, ("asan", "quick"): 256, ("asan", "thorough"): 2048,
-             ("miri", "quick"): 16, ("miri", "thorough"): 640, ("valgrind", "quick"): 32, ("valgrind", "thorough"): 512}
+             ("miri", "quick"): 16, ("miri", "thorough"): 256, ("valgrind", "quick"): 32, ("valgrind", "thorough"): 512}
     rj = None
     if replay:
         with open(replay) as f:
